@@ -204,7 +204,7 @@ def check_loader(case: Dict[str, Any]) -> CaseInfo:
         digests = []
         for n, c in enumerate(case["configs"]):
             order = c.get("dict_order") or sorted(files)
-            cfg = {"dir": d, "files": [[r, files[r]] for r in order], "mp": c["mp"], "order": c.get("order"),
+            cfg = {"dir": d, "files": [[r, files[r]] for r in order], "mp": c["mp"], "order": c.get("order"), "batches": c.get("batches"),
                    "delays": {files[int(r)]: s for r, s in (c.get("delays") or {}).items()}}
             digests.append(run_child(cfg, c["hashseed"], d, str(n)))
     base = digests[0]
@@ -223,6 +223,8 @@ def check_loader(case: Dict[str, Any]) -> CaseInfo:
                         lambda: f"rank {rd['rank']} event {r.id}: decoded ({g[ci['name']]!r}, {g[ci['cat']]!r}) file ({r.name!r}, {r.cat!r})")
     for n, dg in enumerate(digests):
         require(dg["bijection"] is True, "bijection:after_multi_rank_load", f"config {n}")
+        require(dg["stable"]["ids"] is True, "incremental:ids_stable_as_ranks_are_added", lambda: f"config {n} {case['configs'][n]}: {dg['stable']['detail']}")
+        require(dg["stable"]["decoding"] is True, "incremental:earlier_ranks_still_decode", lambda: f"config {n} {case['configs'][n]}: {dg['stable']['detail']}")
     for n, dg in enumerate(digests[1:], 1):
         for rk in base["ranks"]:
             require(dg["ranks"].get(rk) == base["ranks"][rk], "independence:decoded_rows",
@@ -242,6 +244,10 @@ def check_loader(case: Dict[str, Any]) -> CaseInfo:
         classes.append("controlled_completion_order")
     if any(c.get("order") for c in case["configs"]):
         classes.append("permuted_parse_order")
+    if any(c.get("batches") for c in case["configs"]):
+        classes.append("incremental_load")
+    if any(c.get("batches") and c["mp"] and any(len(b["ranks"]) > 1 for b in c["batches"][1:]) for c in case["configs"]):
+        classes.append("incremental_load_pool_after_first_batch")
     if case.get("big_vocab"):
         classes.append("vocabulary_above_127_symbols")
     if case.get("superset_rank") is not None:
@@ -309,12 +315,20 @@ def loader_case(draw):
     configs = [{"hashseed": 0, "mp": False}]
     for _ in range(draw(st.sampled_from([2, 3, 4]))):
         c: Dict[str, Any] = {"hashseed": draw(st.sampled_from([1, 2, 3, 7, 42, 1234, 0])), "mp": draw(st.sampled_from([True, False]))}
-        mode = draw(st.sampled_from(["load", "dict_order", "parse_order", "parse_order"]))
+        mode = draw(st.sampled_from(["incremental", "load", "dict_order", "parse_order", "parse_order", "incremental"]))
         perm = list(draw(st.permutations(ranks)))
         if mode == "dict_order":
             c["dict_order"] = perm
         elif mode == "parse_order":
             c["order"] = perm
+        elif mode == "incremental":
+            # ranks added to one Trace object in 2-3 steps
+            cut = 1 if draw(st.booleans()) else (draw(st.integers(1, len(perm) - 1)) if len(perm) > 1 else 1)
+            c["mp"] = draw(st.sampled_from([True, True, False]))
+            parts = [perm[:cut], perm[cut:]]
+            if len(parts[1]) > 1 and draw(st.booleans()):
+                parts = [parts[0], parts[1][:1], parts[1][1:]]
+            c["batches"] = [{"ranks": b, "single": draw(st.booleans())} for b in parts if b]
         if c["mp"]:
             # completion order = a drawn permutation: the k-th file to finish sleeps k * 0.25 s
             fin = list(draw(st.permutations(ranks)))
@@ -332,6 +346,7 @@ def campaigns(tier: str) -> List[Campaign]:
     return [c,
             Campaign("loader", loader_case(), check_loader, quick=24, thorough=480, quick_shards=8,
                      required_classes={"distinct_numberings": 0.5, "multiprocessing": 0.5, "controlled_completion_order": 0.4,
-                                       "permuted_parse_order": 0.35},
+                                       "permuted_parse_order": 0.3, "incremental_load": 0.3,
+                                       "incremental_load_pool_after_first_batch": 0.05},
                      sample_view=lambda cs: {"configs": cs["configs"], "names_per_rank": [
                          sorted({r.name for r in complete_rows(rd["events"])})[:8] for rd in cs["ranks"]]})]
